@@ -146,6 +146,9 @@ def cmp_step(st, got):
 
 
 def signature(drv, st, shape):
+    if "returned-buffer-overwritten" in shape:
+        # one root cause whatever call the scan followed: an iterator hands out a buffer it writes to later
+        return "kv %s iterator: returned-buffer-overwritten" % drv
     op = OPNAME.get(st["op"], st["op"])
     w = st["w"]
     if w.startswith("empty-prefix"):
